@@ -49,7 +49,30 @@ type gen struct {
 }
 
 var names = []string{"a", "b", "c", "d.txt", "e"}
-var badNames = []string{"../x", "..", ".", "../../esc", "a/../../../w/esc2"}
+var badNames = []string{"../x", "..", ".", "../../esc", "a/../../../w/esc2", "./", "a/..", "/", "."}
+
+// selfNames are the bad names that resolve to the directory that holds the entry.
+var selfNames = map[string]bool{".": true, "./": true, "a/..": true, "/": true}
+
+// describedFiles collects the plain file entries reachable from es through well-named plain
+// dictionaries only, with their paths; selfOnly reports whether every bad name met on the way is a
+// self name.
+func describedFiles(es []*ent, dir string, out map[string]string, selfOnly *bool) {
+	for _, e := range es {
+		if e.badName {
+			if !selfNames[e.name] {
+				*selfOnly = false
+			}
+			continue
+		}
+		switch e.kind {
+		case "str", "bytes", "empty":
+			out[dir+"/"+e.name] = e.content
+		case "dict":
+			describedFiles(e.kids, dir+"/"+e.name, out, selfOnly)
+		}
+	}
+}
 
 var invalidSrcs = []struct{ what, src string }{
 	{"number", "42"},
@@ -589,6 +612,28 @@ func Run(c *run.Ctx) {
 		// Entry names that are not a single path element: the documentation does not say what
 		// they mean; only confinement (above) is demanded.
 		c.Probe("bad-name-scenario")
+		// One thing follows from the statement under every reading of a name that resolves to
+		// the directory holding the entry ('.', './', 'a/..', '/'): whether such an entry is
+		// refused or taken to mean that directory, a reported success means that the files
+		// which well-named plain entries describe are there ("contains exactly the files and
+		// bytes the result dictionary describes"). Demanded only when the rest of the
+		// description is valid and free of collisions.
+		selfOnly := true
+		want := map[string]string{}
+		describedFiles(ents, outPath, want, &selfOnly)
+		if selfOnly && r.err == nil && len(m.invalid) == 0 && !m.failExists && !m.collision && !m.lenient {
+			c.Probe("self-name-success")
+			var miss []string
+			for p, content := range want {
+				if r.tr[p] != "F"+content {
+					miss = append(miss, p)
+				}
+			}
+			sort.Strings(miss)
+			if len(miss) > 0 {
+				c.Violate("described-tree", "C19/self-name-destroys-described-files", "success reported, but %v described by well-named plain entries are missing or different; tree now %v (description %s)", miss, sortedTree(r.tr), src)
+			}
+		}
 		return
 	case len(m.invalid) > 0 || m.failExists:
 		why := "fail-exists"
@@ -788,7 +833,9 @@ func nameClass(ents []*ent) string {
 		for _, e := range es {
 			if e.badName {
 				switch {
-				case e.name == "." || e.name == "..":
+				case selfNames[e.name]:
+					found = append(found, "self")
+				case e.name == "..":
 					found = append(found, "dots")
 				default:
 					found = append(found, "dotdot-slash")
